@@ -18,7 +18,9 @@
 EXTENDS Programs, Runtime, Json, IOUtils
 CONSTANTS MaxParams, DumpCases
 
-PKs == {"i32", "string", "str", "tuple"}
+\* lstr: a `&'l str` parameter whose lifetime is an EXPLICIT generic parameter of the function (`fn f<'l>(deps, r: &'l str)`): unlike
+\* type and const parameters it stays on the generated METHOD, and the unmock_with entry of such a function is still the function
+PKs == {"i32", "string", "str", "tuple", "lstr"}
 ParamLists == UNION { [1..n -> PKs] : n \in 0..MaxParams }
 \* mockable programs: fn / mod (with mock_api), deps generic-ref / impl-ref / no_deps / concrete, sync/async; plus entraited traits
 \* stamp: the function is stamped out by a macro_rules! macro: the #[entrait(..)] attribute, `fn` and the name are written in
@@ -27,6 +29,8 @@ MProgs == { p \in [mode : {"fn", "mod", "trait"}, nfn : 1..3, deps : {"genref", 
             \* (no_deps only: with a dependency the generated `self` and the receiver end up in different hygiene contexts
             \*  and the expansion does not compile on any tree - an observation recorded in DESIGN.md, outside the statements)
             /\ (p.stamp => p.mode = "fn" /\ p.deps = "nodeps" /\ Len(p.params) >= 1)
+            /\ ((\E i \in DOMAIN p.params : p.params[i] = "lstr") => p.mode \in {"fn", "mod"} /\ ~p.stamp /\ ~p.featoff /\ ~p.viafeat /\ ~p.cfg /\ ~p.rev
+                                                                    /\ Cardinality({ i \in DOMAIN p.params : p.params[i] = "lstr" }) = 1)
             \* featoff: entrait is used WITHOUT its `unimock` cargo feature; unimock support comes from the `unimock` option alone
             \* (the invoking crate depends on unimock itself) - documented as the other way to enable it
             \* viafeat: unimock support is switched on by entrait's `unimock` cargo feature alone (no `unimock` option), the invocation is
